@@ -25,7 +25,7 @@ AtStop  == pc = "loop" /\ (ii <= 0 \/ ii <= endIx)
 IsNaN(s) == s = "nan"
 Cells(p, jj, hi) == [j \in 1..(hi - jj + 1) |-> T.call.data[p][jj + j]]     \* 0-based jj..hi
 NonNaN(c) == SelectSeq(c, LAMBDA s : ~IsNaN(s))
-MeanTol(m) == RMul(RAbs(m), "1/1125899906842624")     \* 2^-50 relative
+MeanTol(m) == RMul(RAbs(m), T.call.mtol)     \* relative: 2^-50 for float64 cubes, 2^-22 for float32 cubes (the mean is returned in the cube's type)
 ValOK(func, p, jj, hi, got) ==
     LET c == Cells(p, jj, hi)  nn == NonNaN(c) IN
     CASE func = "sum"  -> ~IsNaN(got) /\ got = RSum(nn)
